@@ -486,6 +486,30 @@ func convJoinDuringRelay(rng *verifkit.Rand, g simGraph) *convResult {
 			}
 		}
 	}
+	// redundant exits: 2-3 agents originate the very same CIDR / domain pattern / forward key;
+	// the oracle wants every (key, origin) pair at every agent, also at those that learn the
+	// mesh by replay
+	if g.N >= 3 && rng.Chance(2, 3) {
+		who := make([]int, g.N)
+		for i := range who {
+			who[i] = i
+		}
+		verifkit.Shuffle(rng, who)
+		for _, key := range []simRouteKey{{Kind: "cidr", Key: "172.20.0.0/16"}, {Kind: "cidr", Key: "0.0.0.0/0"}, {Kind: "domain", Key: "*.shared.example.net"}, {Kind: "forward", Key: "shared-fwd"}} {
+			if !rng.Chance(2, 3) {
+				continue
+			}
+			for _, o := range who[:rng.Range(2, min(3, g.N))] {
+				kk := key
+				if kk.Kind == "forward" {
+					kk.Target = "127.0.0.1:9000"
+				}
+				if s.AddLocal(o, kk) {
+					res.Adverts[o] = append(res.Adverts[o], kk)
+				}
+			}
+		}
+	}
 	// the join fires at the countdown-th fan-out event of the relaying end
 	countdown := rng.Intn(4)
 	joinedAt := "never during a relay"
